@@ -44,6 +44,11 @@ type reqSpec struct {
 	// Slow: the reader yields the processor before every read (widens the
 	// overlap of concurrent requests).
 	Slow bool `json:"slow,omitempty"`
+	// Escape: the path is sent in an over-escaped spelling (characters that
+	// need no escaping written as %XX): "one-upper", "one-lower", "all-upper",
+	// "all-lower". URL.Path and URL.RawPath are set as net/http's server does
+	// (url.ParseRequestURI of the request target). "" = Path used verbatim.
+	Escape string `json:"escape,omitempty"`
 	// Transport names the single non-default delivery feature of the request
 	// (finding keys): one of the modes, "fragmented-reads",
 	// "gzip-members=N", "gzip-empty-member".
@@ -62,7 +67,63 @@ type plainReader struct{ r io.Reader }
 
 func (p plainReader) Read(b []byte) (int, error) { return p.r.Read(b) }
 
-func (q reqSpec) build() *http.Request {
+var escapeModes = []string{"one-upper", "all-lower", "one-lower", "all-upper"}
+
+// escapedTarget spells the path with unnecessary percent-escapes. '/' and ':'
+// (the structure of the path) stay as they are.
+func escapedTarget(path, mode string) string {
+	hex := "0123456789ABCDEF"
+	if strings.HasSuffix(mode, "lower") {
+		hex = "0123456789abcdef"
+	}
+	all := strings.HasPrefix(mode, "all")
+	var sb strings.Builder
+	done := false
+	for i := 0; i < len(path); i++ {
+		c := path[i]
+		unreserved := c >= 'a' && c <= 'z' || c >= 'A' && c <= 'Z' || c >= '0' && c <= '9' || strings.IndexByte("-._~", c) >= 0
+		sub := strings.IndexByte("!$&'()*+,;=@", c) >= 0
+		switch {
+		case c == '/' || c == ':':
+			sb.WriteByte(c)
+		case !unreserved && !sub:
+			// must be escaped anyway (non-ASCII, space, ...)
+			sb.WriteByte('%')
+			sb.WriteByte(hex[c>>4])
+			sb.WriteByte(hex[c&15])
+		case all || (!done && i > 1 && unreserved):
+			done = true
+			sb.WriteByte('%')
+			sb.WriteByte(hex[c>>4])
+			sb.WriteByte(hex[c&15])
+		default:
+			sb.WriteByte(c)
+		}
+	}
+	return sb.String()
+}
+
+// withEscape gives the request the URL a server derives from the escaped
+// request target.
+func (q reqSpec) withEscape(req *http.Request) *http.Request {
+	if q.Escape == "" {
+		return req
+	}
+	target := escapedTarget(q.Path, q.Escape)
+	if q.RawQuery != "" {
+		target += "?" + q.RawQuery
+	}
+	u, err := url.ParseRequestURI(target)
+	if err != nil {
+		return req
+	}
+	req.URL.Path, req.URL.RawPath, req.RequestURI = u.Path, u.RawPath, target
+	return req
+}
+
+func (q reqSpec) build() *http.Request { return q.withEscape(q.build0()) }
+
+func (q reqSpec) build0() *http.Request {
 	if q.Body == nil {
 		return wire.BodyRequest(q.Verb, q.Path, q.RawQuery, http.Header(q.Header), nil)
 	}
@@ -96,7 +157,7 @@ func (q reqSpec) build() *http.Request {
 // Content-Length, one read, a single gzip member.
 func (q reqSpec) defaultTransport() reqSpec {
 	d := q
-	d.Mode, d.Cuts, d.EOFWithData, d.Transport = "", nil, false, ""
+	d.Mode, d.Cuts, d.EOFWithData, d.Transport, d.Escape = "", nil, false, "", ""
 	if q.Transport == "json-whitespace-padding" {
 		d.Body = bytes.TrimSpace(q.Body)
 	}
@@ -227,6 +288,8 @@ func shuffleKeepKeyOrder(rng *rand.Rand, kvs []kv) []kv {
 
 var pathStrVals = []string{"x", "ab", "Z_9", "a.b", "a-b", "~", "a!b", "$&'", "(a)", "*", "a+b", "a,b", "a;b", "k=v", "@me", "1", "true", "0",
 	"é", "日本", "null", "-1", "1e3", strings.Repeat("p", 200), "ü1", "get",
+	// '+' is a literal plus in a path, whatever the spelling of the request
+	"rock+roll+1", "c++", "+", "a+b+c", "1+1=2",
 	// dot segments are ordinary path text for a variable (no path cleaning)
 	"docs", "..", "img", ".", "logo.png", "...", "a.", ".a", "a..b", ".."}
 
